@@ -163,7 +163,7 @@ def check_C16(tier, seed):
         if units:
             crate = os.path.join(wd, "crate")
             bs_ = 8
-            batches = [("m%d" % (j // bs_), units[j:j + bs_]) for j in range(0, len(units), bs_)]
+            batches = [(build.unique_bin("m%d" % (j // bs_)), units[j:j + bs_]) for j in range(0, len(units), bs_)]
             build.write_batch_crate(crate, batches, macro_dep=True)
             tgt = build.tool_vfrt("dev-hooks")
             ok, failures, proc = build.build_batch_crate(crate, tgt, build.flavor_flags("dev-hooks"))
